@@ -588,6 +588,62 @@ def _bounded_parse(tier, seed):
     return {"tool": "native enumeration of ABI type strings against an independent reading of the array suffixes", "bound": f"{len(good)} base types x {len(sufs)} suffix shapes, {len(bad)} unsupported spellings, nested tuples", "cases": cases, "failures": failures[:5]}
 
 
+def generic_calldata_cases():
+    """svm.createCalldata: create_calldata_generic builds one calldata per function of the target; the length candidates
+    of EVERY one of them must reach the path (process_dyn_params), or their lengths are never branched on"""
+    import halmos.cheatcodes as hc
+
+    class NS:
+        def __init__(self, **kw):
+            self.__dict__.update(kw)
+
+    out = []
+    for include_view in (False, True):
+
+        def harness(interp, include_view=include_view):
+            ctx = interp.ctx
+            sigs = {"f(bytes)": "aaaaaaa1", "g(uint256[])": "aaaaaaa2", "v(string)": "aaaaaaa3", "h(bytes,uint8[])": "aaaaaaa4"}
+            mut = {"f(bytes)": "nonpayable", "g(uint256[])": "payable", "v(string)": "view", "h(bytes,uint8[])": "nonpayable"}
+            cj = {"methodIdentifiers": sigs}
+            abi = {s: {"stateMutability": m} for s, m in mut.items()}
+            made, processed, appended = {}, [], []
+
+            def mk(i, abi_, funinfo, *a, **k):
+                cd, dyn = z3.BitVec("cd_" + funinfo.selector, 8 * 36), ["<dyn params of " + funinfo.sig + ">"]
+                made[funinfo.sig] = (cd, dyn)
+                return cd, dyn
+
+            interp.externals[hc.BuildOut] = lambda i, *a, **k: NS(get_by_name=lambda name, filename=None: cj)
+            interp.externals[hc.get_abi] = lambda i, *a, **k: abi
+            interp.externals[hc.mk_calldata] = mk
+            interp.externals[hc.uid] = lambda i, *a, **k: "0000000"
+            cnt = [0]
+
+            def new_id():
+                cnt[0] += 1
+                return cnt[0]
+
+            path = NS(append=lambda c, *a, **k: appended.append(c), process_dyn_params=lambda d: processed.append(d))
+            ex = NS(path=path, new_symbol_id=new_id)
+            sevm = NS(options=config())
+            res = interp.call(hc.create_calldata_generic, [ex, sevm, "Target"], {"include_view": include_view})
+            want = [s for s in sigs if include_view or mut[s] not in ("pure", "view")]
+            ctx.oblige("one calldata per selected function (state-changing ones, plus view/pure ones when asked), after the two fallback calldatas", z3.BoolVal(list(made) == want and len(res) == 2 + len(want)), info={"made": list(made), "n": len(res)})
+            ctx.oblige("the length candidates of every generated calldata reach the path: process_dyn_params is given the dynamic parameters of each function", z3.BoolVal(len(processed) >= len(want) and all(any(p is made[s][1] or (isinstance(p, list) and made[s][1][0] in p) for p in processed) for s in want if s in made)), info={"processed": [str(p) for p in processed]})
+            ok = True
+            for k, s in enumerate(want):
+                if s not in made or 2 + k >= len(res):
+                    ok = False
+                    continue
+                bv = res[2 + k]
+                ok = ok and len(bv) == 64 + 36 and z3.eq(z3.simplify(bv.slice(64, 100).unwrap()), made[s][0])
+            ctx.oblige("each result wraps that function's calldata as abi-encoded bytes (offset, length, data)", z3.BoolVal(ok))
+            ctx.oblige("the fallback selector is constrained to differ from every selector of the contract", z3.BoolVal(len(appended) == len(sigs)))
+
+        out.append(Case(f"{PROP}/cheatcodes.create_calldata_generic", f"four functions, one of them view; include_view={include_view}", harness, replay=replay_script("create_calldata_candidates.py", "svm.createCalldata for a contract with two state-changing functions that take dynamic parameters"), sources=("halmos.cheatcodes:create_calldata_generic",)))
+    return out
+
+
 def build_cases(tier="quick"):
     # every configured length candidate is explored, and a path that runs with a concrete length constrains the length
     # word accordingly (the calldataload contract of the C02 pack)
@@ -595,7 +651,7 @@ def build_cases(tier="quick"):
 
     ref = [Case(f"{PROP}/sevm.SEVM.calldataload", c.case, c.harness, replay=c.replay, sources=c.sources) for c in c02.calldataload_cases()]
     ref += [Case(f"{PROP}/sevm.Path.branch#size-tables-owned", c.case, c.harness, replay=c.replay, sources=c.sources) for c in c02.path_cases() if "Path.branch" in c.unit]
-    return encode_tuple_cases() + encode_cases() + dyn_sizes_cases() + create_cases() + ref
+    return generic_calldata_cases() + encode_tuple_cases() + encode_cases() + dyn_sizes_cases() + create_cases() + ref
 
 
 def bounded():
